@@ -157,6 +157,8 @@ pub fn catalogue() -> Vec<Deviation> {
         dev!("pos_os_parser", |c| { p(c).parser = Vp::Os; }),
         // ---- flag shape
         dev!("flag_count", |c| { a(c).action = Some(Act::Count); }),
+        // no action given: `num_args(0)` alone makes it a SetTrue flag (bool parser, default false)
+        dev!("flag_implied_by_num_args_0", |c| { a(c).action = None; a(c).num_args = Some((0, Some(0))); }),
         dev!("flag_short_only", |c| { a(c).long = None; }),
         dev!("flag_long_only", |c| { a(c).short = None; }),
         dev!("flag_aliases", |c| { a(c).aliases.push("alf".into()); a(c).short_aliases.push('A'); }),
